@@ -259,6 +259,28 @@ class Inventory:
             visit(f)
         return order
 
+    def ctx_summary(self, name, ent, _depth=[0]):
+        """return-value summary of a local function analysed for particular argument values (memoised; one level deep)"""
+        cache = self.__dict__.setdefault("_ctx_cache", {})
+        key = (name, tuple(sorted(ent.items())))
+        if key in cache:
+            return cache[key]
+        body = self.cg.bodies.get(name)
+        if body is None or _depth[0] >= 2:
+            return None
+        cache[key] = None
+        _depth[0] += 1
+        try:
+            sub = Analysis(body, entry_iv=dict(ent), adts=self.facts.adts, summaries=self.summaries)
+            sub.ctx_summary = self.ctx_summary
+            sub.run()
+            cache[key] = sub.return_summary()
+        except Exception:
+            cache[key] = None
+        finally:
+            _depth[0] -= 1
+        return cache[key]
+
     def _diverging(self, f, roots):
         fn = self.facts.fns.get(f) if f else None
         return bool(fn) and fn.get("ret") == "!" and fn.get("kind") != "Closure" and self.liftable(f, roots)
@@ -283,6 +305,7 @@ class Inventory:
         body = self.cg.bodies[f]
         an = Analysis(body, entry_iv=(ent or {}).get("iv"), adts=self.facts.adts, summaries=self.summaries)
         an.entry_cong = (ent or {}).get("cong", {})
+        an.ctx_summary = self.ctx_summary
         an.run()
         self.analyses[f] = an
         out = []
@@ -487,6 +510,19 @@ class Inventory:
                 pt = body.blocks[preds[0]]["term"]
                 if pt["k"] == "switch" and pt["dty"] == "bool" and len(pt["values"]) == 1:
                     cond = an._resolve_bool(pt["discr"], preds[0])
+                    if cond and cond[0] == "call":
+                        # the edge is decided by a local predicate `a <op> b` over its arguments
+                        pst0 = an.state_at_term(preds[0])
+                        pr = an.predicate_of(pst0, cond[1], cond[2]) if pst0 is not None else None
+                        if pr is not None and not (pt["targets"][0] == bi and pt["otherwise"] == bi):
+                            truth = (pt["targets"][0] == bi and bool(pt["values"][0])) or (pt["otherwise"] == bi and not bool(pt["values"][0]))
+                            truth = truth if cond[3] else not truth
+                            op = pr[0] if truth else NEG[pr[0]]
+                            la, lb = pr[1], pr[2]
+                            g = {"Gt": lin_add(la, lb, -1), "Ge": lin_add(lin_add(la, lin_const(1)), lb, -1),
+                                 "Lt": lin_add(lb, la, -1), "Le": lin_add(lin_add(lb, lin_const(1)), la, -1)}.get(op)
+                            if g is not None:
+                                s.goals = [g]
                     if cond and cond[0] == "cmp":
                         truth = (pt["targets"][0] == bi and bool(pt["values"][0])) or \
                                 (pt["otherwise"] == bi and not bool(pt["values"][0]))
@@ -576,7 +612,9 @@ class Inventory:
             iv = an.op_iv(cst, a)
             if iv is not None:
                 entry["_%d" % (i + 1)] = iv
-        sub = Analysis(self.cg.bodies[callee], entry_iv=entry, adts=self.facts.adts, summaries=self.summaries).run()
+        sub = Analysis(self.cg.bodies[callee], entry_iv=entry, adts=self.facts.adts, summaries=self.summaries)
+        sub.ctx_summary = self.ctx_summary
+        sub = sub.run()
         disc = sub.return_summary()["ret"].get("#d")
         want = (1, 1) if "Option<" in (ct.get("argtys") and an.tys.get(k, "") or an.tys.get(k, "")) else (0, 0)
         if disc == want:
